@@ -2,6 +2,7 @@
 #include "prng.h"
 
 #include <condition_variable>
+#include <memory>
 #include <mutex>
 #include <thread>
 
@@ -43,7 +44,7 @@ namespace {
 
 struct Session {
     std::mutex mu;
-    std::condition_variable cv;
+    std::unique_ptr<std::condition_variable[]> cvs; // one per thread: a hand-over wakes exactly the thread that was picked
     int n = 0;
     int turn = -1;                 // which thread may run
     std::vector<int> parkedSite;   // site at which each thread is parked (-1: not started / finished)
@@ -122,13 +123,15 @@ void yield_point(int site) {
         if (ps >= 0 && ps < Y_NSITES && site >= 0 && site < Y_NSITES) S.res.site_pairs[site][ps]++;
     }
     S.turn = pick;
-    S.cv.notify_all();
-    S.cv.wait(lk, [&] { return S.turn == me; });
+    if (pick == me) return; // the same thread goes on: nobody to wake, nothing to wait for
+    if (pick >= 0) S.cvs[static_cast<size_t>(pick)].notify_one();
+    S.cvs[static_cast<size_t>(me)].wait(lk, [&] { return S.turn == me; });
 }
 
 SchedResult run_scheduled(const std::vector<std::function<void()>> &bodies, const SchedConfig &cfg) {
     Session S;
     S.n = static_cast<int>(bodies.size());
+    S.cvs.reset(new std::condition_variable[bodies.size() ? bodies.size() : 1]);
     S.cfg = cfg;
     S.rng.reseed(cfg.seed);
     S.parkedSite.assign(bodies.size(), Y_STEP);
@@ -148,7 +151,7 @@ SchedResult run_scheduled(const std::vector<std::function<void()>> &bodies, cons
             {
                 HarnessScope hs;
                 std::unique_lock<std::mutex> lk(S.mu);
-                S.cv.wait(lk, [&] { return S.turn == static_cast<int>(i); });
+                S.cvs[i].wait(lk, [&] { return S.turn == static_cast<int>(i); });
             }
             bodies[i]();
             {
@@ -158,7 +161,7 @@ SchedResult run_scheduled(const std::vector<std::function<void()>> &bodies, cons
                 S.parkedSite[i] = -1;
                 int pick = choose(S, -1);
                 S.turn = pick;
-                S.cv.notify_all();
+                if (pick >= 0) S.cvs[static_cast<size_t>(pick)].notify_one();
             }
             t_self = -1;
         });
@@ -168,7 +171,7 @@ SchedResult run_scheduled(const std::vector<std::function<void()>> &bodies, cons
         std::unique_lock<std::mutex> lk(S.mu);
         int pick = choose(S, -1);
         S.turn = pick;
-        S.cv.notify_all();
+        if (pick >= 0) S.cvs[static_cast<size_t>(pick)].notify_one();
     }
     for (auto &t : th) t.join();
     g_session = nullptr;
